@@ -121,6 +121,7 @@ def add_mutations(d, counts, rng):
             sites.append(x)
             muts.append([len(sites) - 1, c])
     d = dict(d)
+    _extend_mut_fields(d, len(muts) - len(d["mutations"]))
     d["sites"] = sites
     d["mutations"] = muts
     return d
@@ -150,25 +151,40 @@ def add_offedge_mutations(d, rng, k):
         sites.append(x)
         muts.append([len(sites) - 1, int(u)])
     out = dict(d)
+    _extend_mut_fields(out, len(muts) - len(d["mutations"]))
     out["sites"] = sites
     out["mutations"] = muts
     return canon(out)
 
 
 def ts_from_dict(d):
+    """tree sequence from the plain description.  Optional decorations (all default to the plain
+    form): flags_full (node flags incl. bits other than NODE_IS_SAMPLE), population / npop,
+    site_anc / mut_der (allele strings), mut_time (None = tskit.UNKNOWN_TIME)."""
     import tskit
     tables = tskit.TableCollection(d["L"])
-    for t, f in zip(d["nodes_time"], d["nodes_flags"]):
-        tables.nodes.add_row(flags=f, time=t)
+    npop = d.get("npop", 0)
+    if npop:
+        tables.populations.metadata_schema = tskit.MetadataSchema.permissive_json()
+        for i in range(npop):
+            tables.populations.add_row(metadata={"name": "p%d" % i, "description": None})
+    ff = d.get("flags_full")
+    pop = d.get("population")
+    for u, (t, f) in enumerate(zip(d["nodes_time"], d["nodes_flags"])):
+        tables.nodes.add_row(flags=(ff[u] if ff else f), time=t, population=(pop[u] if pop else -1))
     for l, r, p, c in d["edges"]:
         tables.edges.add_row(l, r, p, c)
     order = sorted(range(len(d["sites"])), key=lambda i: d["sites"][i])
     newid = {}
+    anc = d.get("site_anc")
     for k, i in enumerate(order):
-        tables.sites.add_row(d["sites"][i], "0")
+        tables.sites.add_row(d["sites"][i], anc[i] if anc else "0")
         newid[i] = k
-    for s, u in d["mutations"]:
-        tables.mutations.add_row(site=newid[s], node=u, derived_state="1")
+    der = d.get("mut_der")
+    mt = d.get("mut_time")
+    for k, (s, u) in enumerate(d["mutations"]):
+        tm = tskit.UNKNOWN_TIME if (not mt or mt[k] is None) else mt[k]
+        tables.mutations.add_row(site=newid[s], node=u, derived_state=(der[k] if der else "1"), time=tm)
     tables.sort()
     tables.build_index()
     tables.compute_mutation_parents()
@@ -176,14 +192,74 @@ def ts_from_dict(d):
 
 
 def ts_to_dict(ts):
-    return {
+    import tskit
+    d = {
         "L": float(ts.sequence_length),
         "nodes_time": [float(x) for x in ts.nodes_time],
-        "nodes_flags": [int(x) & 1 for x in ts.nodes_flags],
+        "nodes_flags": [int(x) & 1 for x in ts.nodes_flags],      # 1 = sample (fixed node)
         "edges": [[float(e.left), float(e.right), int(e.parent), int(e.child)] for e in ts.edges()],
         "sites": [float(s.position) for s in ts.sites()],
         "mutations": [[int(m.site), int(m.node)] for m in ts.mutations()],
     }
+    if any(int(x) & ~1 for x in ts.nodes_flags):
+        d["flags_full"] = [int(x) for x in ts.nodes_flags]
+    if ts.num_populations:
+        d["npop"] = int(ts.num_populations)
+        d["population"] = [int(x) for x in ts.nodes_population]
+    anc = [s.ancestral_state for s in ts.sites()]
+    if any(a != "0" for a in anc):
+        d["site_anc"] = anc
+    der = [m.derived_state for m in ts.mutations()]
+    if any(a != "1" for a in der):
+        d["mut_der"] = der
+    mt = [None if tskit.is_unknown_time(m.time) else float(m.time) for m in ts.mutations()]
+    if any(x is not None for x in mt):
+        d["mut_time"] = mt
+    return d
+
+
+def _extend_mut_fields(d, k):
+    """k mutations (each on a new site) were appended to d: keep the optional per-site /
+    per-mutation lists aligned"""
+    if "site_anc" in d:
+        d["site_anc"] = list(d["site_anc"]) + ["0"] * k
+    if "mut_der" in d:
+        d["mut_der"] = list(d["mut_der"]) + ["1"] * k
+    if "mut_time" in d:
+        d["mut_time"] = list(d["mut_time"]) + [None] * k
+
+
+def exotic_dict(rng, d, kinds=None, p=0.5):
+    """valid-but-unusual decorations from vlib.gen.exotic (extra node flag bits, ALL nodes renumbered
+    so that samples are not listed first, mutations above local roots, mutation-free sites, allele
+    strings, populations; 'unknown_mutation_times' drops known times); returns (dict, applied)"""
+    from vlib import gen
+    ts, applied = gen.exotic(rng, ts_from_dict(d), kinds=kinds, p=p)
+    return (ts_to_dict(ts) if applied else d), applied
+
+
+def add_unary(d, rng, k=1):
+    """split k edges of a single tree by a new non-sample node with ONE child (valid: tsdate's
+    discrete passes take explicit priors for such nodes)"""
+    d = dict(d)
+    d["nodes_time"] = list(d["nodes_time"])
+    d["nodes_flags"] = list(d["nodes_flags"])
+    edges = [list(e) for e in d["edges"]]
+    for _ in range(k):
+        i = rng.randrange(len(edges))
+        l, r, p, c = edges[i]
+        tp, tc = d["nodes_time"][p], d["nodes_time"][c]
+        u = len(d["nodes_time"])
+        d["nodes_time"].append(round(tc + (tp - tc) * (0.25 + 0.5 * rng.random()), 6))
+        d["nodes_flags"].append(0)
+        for key, dflt in (("flags_full", 0), ("population", -1)):
+            if key in d:
+                d[key] = list(d[key]) + [dflt]
+        edges[i] = [l, r, u, c]
+        edges.append([l, r, p, u])
+    d["edges"] = edges
+    # mutations stay on their node: those on c are now on the edge u->c
+    return canon(d)
 
 
 def canon(d):
@@ -208,6 +284,12 @@ def renumber(d, rng, perm=None):
     out = dict(d)
     out["nodes_time"] = times
     out["nodes_flags"] = flags
+    for key in ("flags_full", "population"):
+        if key in d:
+            lst = [None] * n
+            for u in range(n):
+                lst[m[u]] = d[key][u]
+            out[key] = lst
     out["edges"] = [[l, r, m[p], m[c]] for l, r, p, c in d["edges"]]
     out["mutations"] = [[s, m[u]] for s, u in d["mutations"]]
     return canon(out), m
@@ -216,7 +298,8 @@ def renumber(d, rng, perm=None):
 def retime(d, rng, mode):
     """new times for the non-sample nodes that keep the tree sequence valid.
     'monotone': an increasing function of the old times (order kept);
-    'free': any times with parent > child (order between unrelated nodes may change)"""
+    'free': any times with parent > child (order between unrelated nodes may change);
+    'ties': integer heights above the children, so that unrelated nodes have exactly tied times"""
     n = len(d["nodes_time"])
     t = list(d["nodes_time"])
     if mode == "monotone":
@@ -237,13 +320,15 @@ def retime(d, rng, mode):
                 new[u] = t[u]
             else:
                 base = max([new[c] for c in kids.get(u, ())] or [0.0])
-                new[u] = round(base + 0.05 + 2 * rng.random(), 6)
+                # 'ties': integer heights, so unrelated nodes share their time exactly
+                new[u] = base + 1.0 if mode == "ties" else round(base + 0.05 + 2 * rng.random(), 6)
     out = dict(d)
     out["nodes_time"] = new
+    out.pop("mut_time", None)      # known mutation times would no longer fit the branches
     return canon(out)
 
 
-def sim_dict(rng, n=None, trees="multi"):
+def sim_dict(rng, n=None, trees="multi", big=False):
     """small msprime tree sequence (contemporaneous samples) as a dict"""
     from vlib import gen
     n = n or rng.randint(2, 6)
@@ -254,7 +339,7 @@ def sim_dict(rng, n=None, trees="multi"):
                         multimerger=rng.random() < 0.3)
         # multiple-merger models can give huge times / thousands of mutations, which only makes the
         # linear space underflow: keep the inputs moderate
-        if ts.num_mutations <= 60 and ts.num_nodes <= 18:
+        if (ts.num_mutations <= 60 and ts.num_nodes <= 18) or (big and ts.num_mutations <= 400 and ts.num_nodes <= 120):
             break
     return ts_to_dict(ts)
 
@@ -299,12 +384,22 @@ def random_prior(rng, d, G, zero_first=None, zeros=0.05):
     return pr
 
 
-def make_case(rng, d, grid=None, space=None, eps=None, mu=None, offedge=None, **opts):
+def make_case(rng, d, grid=None, space=None, eps=None, mu=None, offedge=None, exotic=None, **opts):
     # half of the cases carry 1-3 mutations above a (local) root: they are on no edge
     if offedge is None:
         offedge = rng.choice([0, 0, 1, 2, 3])
     if offedge:
         d = add_offedge_mutations(d, rng, offedge)
+    # ~15%: exactly tied times among unrelated non-sample nodes
+    if opts.pop("ties", rng.random() < 0.15):
+        d = retime(d, rng, "ties") or d
+    # ~40%: valid-but-unusual decorations (vlib.gen.exotic); applied BEFORE priors are drawn, so the
+    # prior rows, the references and the model all refer to the final node ids
+    applied = []
+    if exotic is None:
+        exotic = rng.random() < 0.4
+    if exotic:
+        d, applied = exotic_dict(rng, d, p=0.5)
     G = None
     grid = grid or random_grid(rng)
     G = len(grid)
@@ -321,6 +416,7 @@ def make_case(rng, d, grid=None, space=None, eps=None, mu=None, offedge=None, **
         "eps": eps if eps is not None else rng.choice([1e-6, 1e-8, 1e-3, 0.1]),
         "space": space or rng.choice([LIN, LOG]),
         "offedge_mutations": len(d["mutations"]) - sum(edge_mutation_counts(d)),
+        "exotic": applied,
     }
     case.update(opts)
     return case
@@ -524,6 +620,7 @@ def summary(case):
     ts = ts_from_dict(d)
     return {"nodes": len(d["nodes_time"]), "edges": len(d["edges"]), "trees": int(ts.num_trees),
             "muts": len(d["mutations"]), "muts_on_no_edge": case.get("offedge_mutations", 0),
+            "exotic": case.get("exotic", []), "samples_first": all(d["nodes_flags"][: sum(d["nodes_flags"])]),
             "grid": case["grid"], "space": case["space"],
             "eps": case["eps"], "mu": case["mu"]}
 
@@ -823,3 +920,61 @@ def check_float_funs(ctx, n=60):
             ctx.corr("model-float-" + name, err <= 1e-13, "%s(%r): libm %r, model %r" % (name, a, want, b),
                      {"unit": name, "arg": a, "libm": want, "model": b})
     ctx.notes["model_float_functions_max_rel_error_vs_libm"] = worst
+
+
+# ------------------------------------------------------------------ option combinations (robustness round)
+def random_options(rng, thorough=False):
+    """options off the default path, identical for every call made on one case"""
+    return {
+        "num_threads": rng.choice([None, None, None, 1, 1] + ([2] if thorough else [])),
+        "np_scalars": rng.random() < 0.3,      # numpy-typed scalars (np.float64, np.bool_) as option values
+        "cache_inside": rng.random() < 0.5,
+        "out_std": rng.random() < 0.5,
+    }
+
+
+def opt(case, key, value):
+    """the option value as the caller would pass it: plain python, or numpy-typed when the case says so"""
+    if not case.get("np_scalars") or value is None:
+        return value
+    if isinstance(value, bool):
+        return np.bool_(value)
+    if isinstance(value, float):
+        return np.float64(value)
+    return value
+
+
+def add_unary_chain(d, rng):
+    """multi-tree inputs: a chain of unary nodes above a local root (vlib.gen.unary_chain_ts); None if impossible"""
+    from vlib import gen
+    ts = gen.unary_chain_ts(rng, ts_from_dict(d))
+    return None if ts is None else ts_to_dict(ts)
+
+
+def has_unary(d):
+    ts = ts_from_dict(d)
+    for tree in ts.trees():
+        for u in tree.nodes():
+            if tree.num_children(u) == 1:
+                return True
+    return False
+
+
+PRIOR_KINDS = ["explicit", "explicit", "built", "built-approx", "built-gamma"]
+
+
+def built_priors(case, ts):
+    """a prior grid built by tsdate itself (conditional coalescent), exact or approximate, with
+    allow_unary when the input has unary nodes; a fresh object on every call"""
+    import tsdate
+    kind = case.get("prior_kind", "built")
+    kw = dict(timepoints=case.get("prior_timepoints", 8), allow_unary=bool(case.get("allow_unary")))
+    if kind == "built-approx":
+        kw.update(approximate_priors=True, approx_prior_size=case.get("approx_prior_size", 12))
+    if kind == "built-gamma":
+        kw.update(prior_distribution="gamma")
+    return tsdate.build_prior_grid(ts, case.get("population_size", 1.0), **kw)
+
+
+def priors_for(case, ts):
+    return make_priors(case, ts) if case.get("prior_kind", "explicit") == "explicit" else built_priors(case, ts)
